@@ -525,7 +525,7 @@ class Sup:
         self.options.rules_files = [world.rules_file] if world.rules_file else None
         self.supervisor_data = SupervisorData(self, self.supervisord)
         self.supervisor_updater = Updater()
-        self.server_options = NS()
+        self.server_options = NS(program_configs={}, process_configs={}, disabilities={})
         self.mapper = SupvisorsMapper(self)
         self.mapper.configure(self.options.supvisors_list, self.options.stereotypes,
                               list(self.options.core_identifiers))
